@@ -1050,6 +1050,8 @@ func (f *Frame) convert(i *ssa.Convert, reach string, h *Heap) Val {
 			row := vc.fresh("bytes", "(Array Int Int)")
 			k := "k!b"
 			vc.assume(fmt.Sprintf("(forall ((%s Int)) (! (=> (and (<= 0 %s) (< %s (slen %s))) (= (select %s %s) (sat %s %s))) :pattern ((select %s %s))))", k, k, k, x.E, row, k, x.E, k, row, k))
+			// converting back gives the same string (both conversions copy byte for byte)
+			vc.assume(eq(app("sofbytes", row, "0", app("slen", x.E)), x.E))
 			vc.setComp(h, comp, "Int", app("store", vc.cur(h, comp, "Int"), ref, row))
 			n := app("slen", x.E)
 			return Val{S: "Slice", E: mkslice(ref, "0", n, n), T: i.Type()}
